@@ -319,6 +319,31 @@ def run_random_case(F, data: bytes, rng, ctx, case) -> None:
             o.update(b)
         if o.checksum != fcs16.fcs(data):
             ctx.violation("C03:duplicated-object:original-changed", f"the original object gives {o.checksum!r} after it was duplicated, model {fcs16.fcs(data):#06x}", dict(case, cut=cut))
+    # compute_checksum reached through an object that has already consumed octets (legal for a static method), and an object that is
+    # re-initialised with __init__() for the next message (object pools do that)
+    if data:
+        used = F()
+        for b in data[: max(1, len(data) // 2)]:
+            used.update(b)
+        before = used.checksum
+        try:
+            got = used.compute_checksum(data, 0, len(data))
+        except Exception:
+            got = None
+            ctx.count("container_calls_that_raised(not judged)")
+        if got is not None:
+            ctx.count("compute_checksum_called_through_a_used_object")
+            if got != fcs16.fcs(data) or used.checksum != before:
+                ctx.violation("C03:compute_checksum:through-used-object", f"compute_checksum called through an object that had consumed {max(1, len(data) // 2)} octets: {got!r} (model {fcs16.fcs(data):#06x}); the object's own checksum {before!r} -> {used.checksum!r}", case)
+        try:
+            used.__init__()
+            for b in data:
+                used.update(b)
+            ctx.count("objects_reinitialised_and_reused")
+            if used.checksum != fcs16.fcs(data):
+                ctx.violation("C03:reinitialised-object", f"object re-initialised with __init__() and fed {data.hex()[:60]}: checksum {used.checksum!r}, model {fcs16.fcs(data):#06x}", case)
+        except TypeError:
+            ctx.count("container_calls_that_raised(not judged)")
     # pairs of different windows that a 32-bit digest of the input cannot tell apart, computed one after the other
     if len(data) >= 3:
         from vf.gen import collide
